@@ -37,6 +37,23 @@ pub use port_allocator::{PortAllocator, PortNumber, PortReq};
 pub use receiver::{DataBuf, Received, Receiver, ReceiverStream, RecvAnyError, RecvChunkError, RecvError};
 pub use sender::{ChunkSender, Closed, SendError, Sender, SenderSink, TrySendError};
 
+/// Verification hook (only with `--cfg remoc_verif`): direct access to the wire codec.
+#[cfg(remoc_verif)]
+#[doc(hidden)]
+pub mod verif {
+    pub use super::msg::{ExchangedCfg, MultiplexMsg};
+
+    /// Encodes a message exactly as the multiplexer does before handing it to the transport.
+    pub fn encode(msg: &MultiplexMsg) -> Vec<u8> {
+        msg.to_vec()
+    }
+
+    /// Decodes a message exactly as the multiplexer does after receiving it from the transport.
+    pub fn decode(data: &[u8]) -> Result<MultiplexMsg, std::io::Error> {
+        MultiplexMsg::read(data)
+    }
+}
+
 /// Channel multiplexer protocol version.
 pub const PROTOCOL_VERSION: u8 = 3;
 
